@@ -25,6 +25,16 @@ CLAIMED = {
              "indent have no independent statement.",
         note=TTY_NOTE + "Known finding K_word_count (C04) limits the count convention for word commands.",
         technique="Coq proof: finite table sweeps by kernel computation for arbitrary surrounding state; structural proofs over the editor monad (keeps_buf, insert spec); extracted-model differential check through a pty + documented-meaning oracle"),
+    "C13": dict(
+        text="Theorems for every validator, editor state and text: executing Enter / C-j / C-m says Submit only if the verdict on "
+             "the current text is Valid, and then text and cursor are exactly those validated; a Valid verdict does submit; "
+             "Incomplete (or Invalid without message) inserts one line break at the cursor and continues; Invalid with a message "
+             "leaves text and cursor unchanged and writes the message; a validator error is the result of the read. Over whole "
+             "reads (induction on the main loop, any input): a read that returns ended on a Submit, only the accept commands can "
+             "produce one, and through Enter the returned text is the validated text. Tied to /repo by the validate stream and a "
+             "decision-table oracle recomputing the verdict from the observed text at every Enter.",
+        note=TTY_NOTE + "AcceptLine via custom binding and vi C-d bypass validation by design (stated in the theorem).",
+        technique="Coq proof: symbolic execution of the editor monad per verdict; induction over the main loop's fuel; extracted-model differential check through a pty + decision-table oracle"),
     "C03": dict(
         text="Theorems over the model of every public LineBuffer method (same byte arithmetic, explicit Panic): for EVERY "
              "operation, Unicode data, segmentation, buffer and parameters the notifications replayed on the old text give "
